@@ -44,9 +44,9 @@ type Bounds struct {
 	Summaries map[string]Summary // by callee role name
 	// AssumeNonNeg: values assumed ≥ 0 (parameters, when verifying a conditional non-negativity summary)
 	AssumeNonNeg map[ssa.Value]bool
-	depth     int
-	ifs       []*ssa.If
-	subs      map[*ssa.Function]*Bounds
+	depth        int
+	ifs          []*ssa.If
+	subs         map[*ssa.Function]*Bounds
 }
 
 func NewBounds(p *Prog, fn *ssa.Function, sums map[string]Summary) *Bounds {
